@@ -9,6 +9,7 @@ import (
 	"golang.org/x/sync/errgroup"
 
 	"github.com/avos-io/goat/gen/goatorepo"
+	"github.com/avos-io/goat/internal/verifhook"
 )
 
 const (
@@ -169,6 +170,7 @@ func (p *Proxy) forwardRpc(source string, rpc *goatorepo.Rpc) {
 	select {
 	case client.fromServer <- rpc:
 	default:
+		verifhook.Count("proxy.drop")
 		log.Warn().Str("source", rpc.Header.Source).
 			Str("destination", rpc.Header.Destination).
 			Str("method", rpc.Header.Method).
